@@ -261,6 +261,12 @@ func leakText(gs []libGoroutine) string {
 // ---------------------------------------------------------------------------
 // C05: termination, leaks, Error() never blocks
 
+// cancelSlack: handler calls tolerated after a cancellation. The unchanged code
+// leaves its event loop with probability >= 1/2 per event once the context is
+// done (Go's select picks uniformly among ready cases), and a transaction is at
+// least two events: more than 40 late calls has probability below 2^-80.
+const cancelSlack = 40
+
 func checkC05(r *Run) []Violation {
 	var vs []Violation
 	for i, att := range r.Results {
@@ -278,6 +284,21 @@ func checkC05(r *Run) []Violation {
 			}
 			if c.Overlap {
 				vs = append(vs, Violation{"C05", "handler-overlap", fmt.Sprintf("handler call %d overlapped another call", k), i})
+			}
+		}
+		if len(att.Causes) > 0 && att.Causes[0] == "cancel" && att.CauseSeq > 0 && !att.Plan.NoCancelCtx {
+			// A cancelled Stream may still hand over what it was in the middle of, and
+			// a fair select may pick a ready event over the cancellation a few times
+			// (probability 1/2 or less per event) - not transaction after transaction
+			// for as long as the master has something to send.
+			late := 0
+			for _, c := range att.Calls {
+				if c.Seq > att.CauseSeq {
+					late++
+				}
+			}
+			if late > cancelSlack {
+				vs = append(vs, Violation{"C05", "cancel-ignored", fmt.Sprintf("%d transactions were handed to the handler after the caller's context was cancelled (Stream returned only when the master had nothing more to send)", late), i})
 			}
 		}
 		if att.HadConn && !att.SocketClosed {
